@@ -315,7 +315,13 @@ def opVsindex (blend : Option VsLookup) (rest : List Nat) (st : St) : OpRes :=
         | .error e => failE st e
         | .ok (r, se) => .ok (true, rest, { st with stack := stack, vsIndex := ix, regions := r, scalarErr := se })
 
-/-- Blend: `Stack::apply_blend` -/
+/-- Blend: `Stack::apply_blend`.
+    Accounting for its slice arithmetic (none of it can panic, given `top ≤ MAX_STACK`, which is
+    `evaluate_stack_le`): `target_value_count * (region_count + 1)` ≤ 513 · 65536; `start = len - operand_count` is
+    guarded by `len < operand_count ⇒ StackUnderflow`; `values[start..end]` has `end = len ≤ 513`;
+    `values[start..].split_at_mut(target_value_count)` has `target_value_count ≤ operand_count ≤ 513 - start`;
+    `deltas[region_count * value_ix + region_ix]` has `value_ix < target`, `region_ix < region_count` (`scalars()` yields
+    exactly `region_indices.len()` items), so the index is `< target * region_count = operand_count - target ≤ |deltas|`. -/
 def opBlend (blend : Option VsLookup) (rest : List Nat) (st : St) : OpRes :=
   match blend with
   | none => failE st .missingBlend
@@ -343,7 +349,10 @@ def opEndchar (rest : List Nat) (st : St) : OpRes :=
   let st := if st.isOpen then { st with isOpen := false, out := K_CLOSE :: st.out } else st
   .ok (false, rest, st)
 
-/-- HStem / VStem / HStemHm / VStemHm (`kind` = which sink callback) -/
+/-- HStem / VStem / HStemHm / VStemHm (`kind` = which sink callback).
+    `self.stack.len() - 1` is evaluated only when `len_is_odd()`; `u += args[0]`, `u.wrapping_add(w)`, `u + w` are
+    wrapping `Fixed` operations (font-types fixed.rs); `stem_count += len / 2` is a `usize` that grows by at most 256
+    per operator. -/
 def opStem (kind : Nat) (rest : List Nat) (st : St) : OpRes :=
   let n := st.stack.length
   let p := stemStart n st.haveWidth
@@ -403,7 +412,8 @@ def opHhVv (need : Nat) (rest : List Nat) (st : St) : OpRes :=
     | .error f => liftL st (.error f)
     | .ok l => .ok (true, rest, finishOp st l)
 
-/-- HvCurveTo / VhCurveTo -/
+/-- HvCurveTo / VhCurveTo.  `count1 - count` with `count = count1 & !2 ≤ count1`; `count - self.stack_ix` is evaluated
+    only under `stack_ix < count`. -/
 def opHvVh (rest : List Nat) (st : St) : OpRes :=
   let n := st.stack.length
   let count := if (n / 2) % 2 = 1 then n - 2 else n        -- `count1 & !2`
